@@ -1188,7 +1188,14 @@ func (c *Conn) writeRequest(ctx *Ctx) error {
 		c.setLastErr(err)
 		// if we had any error, remove it from the reqQueued.
 		c.dequeueReq(id)
-		c.deletePending(id)
+
+		// The Ctx is still held here. deletePending takes it itself to close
+		// a body stream, and the lock is not reentrant: a failed HEADERS write
+		// for a request with a streamed body stopped the write loop before
+		// the request had been given its error.
+		if pb := c.takePending(id); pb != nil {
+			c.closeBodyStream(pb)
+		}
 
 		return err
 	}
